@@ -66,6 +66,7 @@ type hybridQuery struct {
 	Fusion  comet.FusionKind
 	WV, WT  float64
 	RRFK    float64
+	Via     int // how the fusion is handed over: 0 WithFusion(NewFusion(kind, cfg)), 1 WithFusionKind(kind) = default config, 2 not at all = DefaultFusion()
 	Agg     comet.ScoreAggregationKind
 }
 
@@ -81,7 +82,7 @@ func (q hybridQuery) String() string {
 		}
 		gs = append(gs, fmt.Sprint(d))
 	}
-	return fmt.Sprintf("vector=%v texts=%q filters=%v groups=%v k=%d fusion=%s(wv=%.3g wt=%.3g K=%g) agg=%s", q.Vector != nil, q.Texts, fs, gs, q.K, q.Fusion, q.WV, q.WT, q.RRFK, q.Agg)
+	return fmt.Sprintf("vector=%v texts=%q filters=%v groups=%v k=%d fusion=%s(wv=%.3g wt=%.3g K=%g via=%d) agg=%s", q.Vector != nil, q.Texts, fs, gs, q.K, q.Fusion, q.WV, q.WT, q.RRFK, q.Via, q.Agg)
 }
 
 type scored struct {
@@ -367,6 +368,12 @@ func genHybridQuery(rng *rand.Rand, h *hybridModel, vg *vecGen, tg *textGen) hyb
 					grp = append(grp, orGroupMarker()) // FilterGroup{Logic: OR}
 				}
 				for i := 0; i < 1+rng.IntN(3); i++ {
+					if g > 0 && rng.IntN(3) == 0 {
+						// the same filter again, as in (A and x>5) or (A and x<2)
+						_, prev := splitGroup(q.Groups[rng.IntN(len(q.Groups))])
+						grp = append(grp, prev[rng.IntN(len(prev))])
+						continue
+					}
 					grp = append(grp, genLeaf(rng, h.meta, false))
 				}
 				q.Groups = append(q.Groups, grp)
@@ -381,6 +388,12 @@ func genHybridQuery(rng *rand.Rand, h *hybridModel, vg *vecGen, tg *textGen) hyb
 		q.WV, q.WT = rng.Float64()*2, rng.Float64()*2
 	}
 	q.RRFK = []float64{1, 60}[rng.IntN(2)]
+	switch rng.IntN(6) {
+	case 0: // by kind: the library's default configuration (weights 1/1, K = 60)
+		q.Via, q.WV, q.WT, q.RRFK = 1, 1, 1, 60
+	case 1: // no fusion given at all: the default fusion (weighted sum, weights 1/1)
+		q.Via, q.Fusion, q.WV, q.WT, q.RRFK = 2, comet.WeightedSumFusion, 1, 1, 60
+	}
 	q.Agg = []comet.ScoreAggregationKind{comet.SumAggregation, comet.MaxAggregation, comet.MeanAggregation}[rng.IntN(3)]
 	return q
 }
@@ -405,6 +418,12 @@ func applyHybridQuery(s comet.HybridSearch, q hybridQuery) comet.HybridSearch {
 			gs = append(gs, cometGroup(g))
 		}
 		s = s.WithMetadataGroups(gs...)
+	}
+	switch q.Via {
+	case 1:
+		return s.WithK(q.K).WithFusionKind(q.Fusion).WithScoreAggregation(q.Agg)
+	case 2:
+		return s.WithK(q.K).WithScoreAggregation(q.Agg)
 	}
 	f, _ := comet.NewFusion(q.Fusion, &comet.FusionConfig{VectorWeight: q.WV, TextWeight: q.WT, K: q.RRFK})
 	return s.WithK(q.K).WithFusion(f).WithScoreAggregation(q.Agg)
